@@ -521,13 +521,7 @@ static int addLeaf(KSI_TreeBuilder *builder, KSI_DataHash *hsh, KSI_MetaData *me
 		goto cleanup;
 	}
 
-	/* Insert the leaf. */
-	res = processAndInsertNode(builder, node);
-	if (res != KSI_OK) {
-		KSI_pushError(builder->ctx, res, NULL);
-		goto cleanup;
-	}
-
+	/* Create the handle before the node is handed over to the tree. */
 	if (leaf != NULL) {
 		tmp = KSI_new(KSI_TreeLeafHandle);
 		if (tmp == NULL) {
@@ -538,12 +532,22 @@ static int addLeaf(KSI_TreeBuilder *builder, KSI_DataHash *hsh, KSI_MetaData *me
 		tmp->pBuilder = builder;
 		tmp->leafNode = node;
 		tmp->ref = 1;
+	}
 
+	/* Insert the leaf. */
+	res = processAndInsertNode(builder, node);
+	if (res != KSI_OK) {
+		KSI_pushError(builder->ctx, res, NULL);
+		goto cleanup;
+	}
+
+	/* The node is now owned by the builder. */
+	node = NULL;
+
+	if (leaf != NULL) {
 		*leaf = tmp;
 		tmp = NULL;
 	}
-
-	node = NULL;
 
 	res = KSI_OK;
 
